@@ -15,8 +15,10 @@ META = {
                   "SFileVerifyFile) and Trace_Integrity decides: intact => all pass; altered protected region => some detector fails or all content tokens are "
                   "the originals. Signatures: generate_weak_signature over byte strings, every bit of data and signature flipped; the signature area at every "
                   "alignment relative to the 64 KiB digest unit (all 71 straddling placements) with the 16 bytes before and 128 bytes after it flipped; signed archives "
-                  "> 64 KiB whose (signature) entry straddles the unit boundary; >= 2000 distinct signed messages verified intact; version-4 archives with 1022..2049 "
-                  "files verified intact.",
+                  "> 64 KiB whose (signature) entry straddles the unit boundary; >= 2000 distinct signed messages verified intact; intact-only verification (every digest valid, every table loaded, every file reads back "
+                  "and passes SFileVerifyFile) over version-4 archives with 1022..2049 files, V3/V4 x compress_tables on/off x 1/4/23/60/150 files, archives that start "
+                  "behind a 512/1024-byte prefix (also swept: signed V1 and V4), and content-length classes from EMPTY to 3.x sectors in every (version, attributes, "
+                  "sector-crc, encrypted+compressed) configuration.",
     "level_note": "Single contiguous alterations only (one byte, 4 bytes, or two sectors swapped). Archives are 3-4 KB with one single-unit, one 3-sector (compressed/raw/compressed) and one stored 3-sector file; "
                   "a stored (uncompressed) multi-sector file is included since 9cf2783. Signed archives: V1 without sector CRCs "
                   "(signature patched in by the harness with generate_weak_signature). A digest of the v4 header counts as a detector only if it verified on the "
@@ -86,8 +88,8 @@ def run(ctx, cases_override=None):
         "rule": "one evaluation = one alteration of a real archive (distinct (archive, offset, mutation kind) by construction) followed by a run of every "
                 "detector, or one bit flip of a signed byte string followed by verify_weak_signature_stormlib (non-trivial: each changes at least one byte); "
                 "evaluations additionally counts intact-only checks: signed messages that must verify (the ~1/256 class whose RSA value has a zero top byte is "
-                "hit with probability 1-(255/256)^n, see zero_top_byte_miss_probability) and version-4 archives with 1022..2049 files (tables around and above "
-                "the 0x4000-byte raw chunk) whose digests must all verify",
+                "hit with probability 1-(255/256)^n, see zero_top_byte_miss_probability) and the intact-only archives (large tables, compressed HET/BET tables, archive behind a prefix, "
+                "content-length classes incl. empty files) whose digests, tables, read-backs and SFileVerifyFile results must all pass",
         "samples": samples,
         "traces_validated_against_impl": res["traces"],
         "events": res["events"],
